@@ -44,6 +44,13 @@ class CustomTypeB(UnitType):
         return False
 
 
+class CustomTypeA2(CustomTypeA):
+    """A subclass of a class that an enclosing scope may have registered: whatever is kept *on*
+    a conversion class (a counter, a flag) is found on the subclass too, through the MRO."""
+    def _istype(self):
+        return False
+
+
 class CustomTypeG(UnitType):
     """A conversion class that really converts: units defined with it are gauge units with an
     offset of 10 base units, and while it is registered it also takes over Celsius.  Once its
@@ -68,7 +75,8 @@ class CustomTypeG(UnitType):
 
 # "S"/"T": a custom unit may also name a *built-in* conversion class as its definition;
 # the scope must then leave that class in the table when it ends
-CUSTOM_TYPES = {"A": CustomTypeA, "B": CustomTypeB, "G": CustomTypeG, "S": StandardUnitType,
+CUSTOM_TYPES = {"A": CustomTypeA, "B": CustomTypeB, "G": CustomTypeG, "A2": CustomTypeA2,
+                "S": StandardUnitType,
                 "T": TemperatureUnitType}
 BUILTIN_TYPES = ("S", "T")
 
@@ -263,7 +271,7 @@ class UnitScopeMachine(Machine):
             if self.cfg["prefix_units"] and rng.random() < 0.4:
                 u["prefixes"] = rng.choice([True, ["k", "M"], ["m"], False])
             if self.cfg["custom_types"] and rng.random() < 0.3:
-                u["defn"] = rng.choice(["A", "B", "G", "G", "S", "T"])
+                u["defn"] = rng.choice(["A", "B", "G", "G", "S", "T", "A2", "A"])
             elif rng.random() < 0.15:
                 u["defn"] = "2*m"
             if rng.random() < 0.2:
